@@ -100,6 +100,74 @@ def target(x: R[8], y: R[3]):
 """, "two", "for i in _:_", pkind="other-buffer", expect="rejected"),
 ]
 
+# comparison operators in corresponding guard positions: callee guard `i OPc k`, block guard `i OPb m`
+_LANE = """
+@proc
+def copy_lane(n: size, dst: [R][n], src: [R][n], k: index):
+    for i in seq(0, n):
+        if i %s k:
+            dst[i] = src[i]
+
+@proc
+def target(m: index, x: R[8], y: R[8]):
+    for i in seq(0, 8):
+        if i %s m:
+            y[i] = x[i]
+"""
+_CMP = ["==", "<", "<=", ">", ">="]
+for _a in _CMP:
+    for _b in _CMP:
+        if _a != _b and (_a == "==" or _b == "=="):
+            REGRESS.append(case("regress-cmp:%s-vs-%s" % (_a, _b), "regress", _LANE % (_a, _b), "copy_lane", "for i in _:_",
+                                pkind="cmp:%s->%s" % (_a, _b), expect="rejected"))
+_BAND = """
+@proc
+def band(dst: [R][8], src: [R][8], lo: index, hi: index):
+    for i in seq(0, 8):
+        if i >= lo %s i < hi:
+            dst[i] += src[i]
+
+@proc
+def target(a: index, b: index, x: R[8], y: R[8]):
+    for i in seq(0, 8):
+        if i >= a %s i < b:
+            y[i] += x[i]
+"""
+REGRESS.append(case("regress-bool:and-vs-or", "regress", _BAND % ("and", "or"), "band", "for i in _:_", pkind="bool:and->or", expect="rejected"))
+REGRESS.append(case("regress-bool:or-vs-and", "regress", _BAND % ("or", "and"), "band", "for i in _:_", pkind="bool:or->and", expect="rejected"))
+_BAND2 = """
+@proc
+def band(dst: [R][8], src: [R][8], lo: index, hi: index):
+    for i in seq(0, 8):
+        if i %s lo and i < hi:
+            dst[i] += src[i]
+
+@proc
+def target(a: index, b: index, x: R[8], y: R[8]):
+    for i in seq(0, 8):
+        if i %s a and i < b:
+            y[i] += x[i]
+"""
+REGRESS.append(case("regress-cmp-in-and:==-vs->=", "regress", _BAND2 % ("==", ">="), "band", "for i in _:_", pkind="cmp:==->>=", expect="rejected"))
+REGRESS.append(case("regress-cmp-in-and:>=-vs-==", "regress", _BAND2 % (">=", "=="), "band", "for i in _:_", pkind="cmp:>=->==", expect="rejected"))
+
+# DoReplace must substitute the call for the unified statements only: a block cursor longer than the callee
+# body keeps its trailing statements (`extra` = statements of the cursor beyond the callee body)
+REGRESS.append(dict(case("regress-longer-block", "regress", """
+@proc
+def zero4(dst: [R][4]):
+    for i in seq(0, 4):
+        dst[i] = 0.0
+
+@proc
+def target(x: R[8], y: R[4]):
+    for i in seq(0, 4):
+        x[i + 2] = 0.0
+    for j in seq(0, 4):
+        y[j] = x[j] + 1.0
+    x[0] = 5.0
+""", "zero4", "for i in _:_", pkind="longer-block", expect="accepted-equal"), extra=2))
+
 # ---------------------------------------------------------------- the repo's own tests
 _UNIFY = {
     1: ("""
